@@ -63,6 +63,19 @@ def value_case(asm, acc, seed, idx):
         exp[name] = v
         nontriv |= count_ops(t) >= 2
         lines.append('%s%s=%s%s' % (name, rng.choice([' ', '  ', '\t']), rng.choice([' ', '  ']), text))
+    if exp and rng.random() < 0.35:
+        # the running-total idiom (the same definition text several times) and a value that is set back to an earlier one
+        n0 = rng.choice(list(exp))
+        if rng.random() < 0.5:
+            d, k = rng.choice([1, 4, -3]), rng.randint(2, 4)
+            lines += ['%s = %s + %d' % (n0, n0, d)] * k
+            exp[n0] = env[n0] = env[n0] + d * k
+        else:
+            a = rng.randrange(-40, 40)
+            lines += ['%s = %d' % (n0, a), '%s = %d' % (n0, a + 1), '%s = %d' % (n0, a)]
+            exp[n0] = env[n0] = a
+        acc['ctr']['programs_with_repeated_definition_text'] += 1
+        nontriv = True
     src = '\n'.join(lines) + '\n'
     acc['n'] += 1
     preseed = None
@@ -82,7 +95,7 @@ def value_case(asm, acc, seed, idx):
     for name, v in exp.items():
         got = o.constants.get(name)
         if got != v or type(got) is not int:
-            ln = [l for l in lines if l.split()[0] == name][-1]
+            ln = [l for l in lines if l.split('=')[0].strip() == name][-1]
             core.add_viol(acc, 'constant `%s` evaluates to %r; the value of the expression is %d' % (ln, got, v), case, {'lines': lines})
             break
     if idx % 301 == 0:
@@ -92,7 +105,9 @@ def value_case(asm, acc, seed, idx):
 def char_case(asm, acc, ch):
     acc['n'] += 1
     case = {'kind': 'char', 'ch': ch}
-    src = "QCH = '%s'\nR = QCH + 1\ndb QCH\ndh R\n" % ch
+    # (a comment may quote other characters: they are not part of the expression)
+    cmt = ['', "  # not 'Z'", "  # '\\n' is 10, ',' is 44", " #'#'"][ord(ch) % 4]
+    src = "QCH = '%s'%s\nR = QCH + 1\ndb QCH\ndh R\n" % (ch, cmt)
     o = monitors.observe(asm, src, tap=False)
     acc['ntkeys'].add(core.ckey('char', ch))
     acc['ctr']['char_literals'] += 1
